@@ -249,7 +249,7 @@ func init() {
 		Items: func(tier string) []Item {
 			items := coreItems(tier, c02Scenario, nil, []int{0, 1}, 0)
 			// the issues a caller holds are exactly the violations, also after later and overlapping executions
-			return append(items, callsItems(tier, "C02", "clean-despite-violation", "depends-on-history", "nested-call-differs", "earlier-result-changed", "panic")...)
+			return append(items, callsItems(tier, "C02", "clean-despite-violation", "depends-on-history", "nested-call-differs", "earlier-result-changed", "schema-modified", "panic")...)
 		},
 	})
 }
